@@ -52,3 +52,12 @@ package name
 //@   loop 0 invariant[parts_private] len(splitPath) >= 1 && fresh(splitPath)
 //@   loop 0 invariant[caller_memory_untouched] entrymem()
 //@   ensures[result] n != nil
+
+// Pattern matching (property C21): a name matches a pattern iff the sanctuary parts are equal and
+// each of the realm / swamp parts of the pattern is the wildcard "*" or equal to the name's part.
+//@ pure isstar(s) = len(s) == 1 && s[0] == '*'
+//@ func (*name).ComparePattern(n, comparableName) (r)
+//@   property C21
+//@   nopanic
+//@   requires[pattern] comparableName != nil
+//@   ensures[definition] r <==> (n.SanctuaryID == icall("GetSanctuaryID", comparableName) && (isstar(icall("GetRealmName", comparableName)) || n.RealmName == icall("GetRealmName", comparableName)) && (isstar(icall("GetSwampName", comparableName)) || n.SwampName == icall("GetSwampName", comparableName)))
